@@ -744,7 +744,11 @@ func (w *walker) step(st *pstate, in ssa.Instruction, b *ssa.BasicBlock, idx int
 		a := w.val(st, x.X)
 		switch x.Op {
 		case token.MUL:
-			st.env[x] = w.load(st, a, x.Type())
+			lt := w.load(st, a, x.Type())
+			if lt.Op == "load" && lt.Val == nil {
+				lt.Val = x
+			}
+			st.env[x] = lt
 		case token.ARROW:
 			k := "recv " + a.Key()
 			st.occ[k]++
